@@ -22,7 +22,7 @@ RULE = ('cases = corpus + exhaustive cut sets of short framed streams + random i
 ORACLE_DOC = ('real unframe over the chunked real-framed stream must deliver exactly the original items in order '
               '(line: a non-empty unterminated tail once at completion; length-prefix: an incomplete trailing frame never)')
 
-ALPHA = 'ab \n\x00é€😀,"\\|\r'
+ALPHA = 'ab \n\x00é€😀,"\\|\r\x0c\x1c\x85\u2028\u2029'
 
 
 def _chunks(case):
